@@ -1199,7 +1199,8 @@ pub fn gas_setup(r: &mut Rng, case: &mut VmCase, exact_total: Option<u128>) {
 /// execute a few ops, an optional tail; cost tables put 0 / small / near-overflow costs on each op kind.
 pub fn gas_probe(r: &mut Rng) -> VmCase {
     let mut case = base_case(r);
-    let breadth = *r.pick(&[1i64, 2, 2, 3, 4, 8]);
+    // a few children, or (rarely) enough of them for any batched / chunked join to need several rounds
+    let breadth = if !tiny() && r.chance(0.04) { *r.pick(&[65i64, 257, 300, 513, 1025, 2049, 4097]) } else { *r.pick(&[1i64, 2, 2, 3, 4, 8]) };
     let mut ops = vec![];
     for _ in 0..r.below(3) {
         ops.push(PUSH(r.range(0, 5)));
